@@ -88,9 +88,14 @@ def run(ck):
     ck.distinct = sys_scn + ck.stats.get("model_distinct", 0)
     if ex:
         ck.samples = [l for l in ex if l.startswith("direct ")][:4] + ck.samples[:3]
-    ck.rule = ("whole broker: 1..8 publishers sending numbered messages at each QoS to overlapping topics, 1..4 subscribers with differing granted "
-               "QoS, windows 1..10, one subscriber cut with 2..window messages unacknowledged and resumed: per (publisher, QoS, delivery QoS) "
-               "sequence numbers increase, retransmitted (dup) ids keep their original order, no QoS 2 message offered twice as new; plus clauses "
-               "c15_in_order, c15_release_intact, c15_resend_order, c15_dequeue_order on broker-connection traces; plus the fifo clause of the "
-               "service monitor on the service scenarios (client.Service command queue); plus the client_in_order scanner on client traces "
-               "(bursts of PUBLISH/PUBREL handed over at once, callback errors)")
+    ck.rule = ("whole broker (go/cmd/system c15): 1..8 publishers sending numbered messages at each QoS to overlapping topics, 1..4 subscribers with differing "
+               "granted QoS, windows 1,2,3,5,7,10, one subscriber cut with exactly 2..window messages unacknowledged (1 for window 1) and resumed: per "
+               "(publisher, QoS, delivery QoS) sequence numbers increase (order), retransmitted ids keep their original order and include everything "
+               "unacknowledged (resend_order), no new PUBLISH before the last retransmission (resend_first), no QoS 2 message offered twice as new; "
+               "gated resume with a PUBREL and PUBLISHes in flight, a free window slot and a backlog while Restore is held back; packet ids wrapping "
+               "65535->1 between unacknowledged deliveries; a publisher cut and resuming with unacknowledged QoS 1/2 publishes (publisher_resume); a "
+               "backend that is slow with a publisher's first message (log_publish_serial, order); a backlogged subscriber; back-pressure bursts "
+               "(in_order, progress); real client.Service publishers and client.Client subscribers around the broker (order_e2e); on every backend "
+               "log: log_restore_first; plus clauses c15_in_order, c15_release_intact, c15_resend_order, c15_dequeue_order, c15_resend_first on "
+               "broker-connection traces; plus the fifo clause of the service monitor on the service scenarios (client.Service command queue); plus "
+               "the client_in_order scanner on client traces (bursts of PUBLISH/PUBREL handed over at once, callback errors)")
